@@ -46,10 +46,10 @@ var pkgClauseRe = regexp.MustCompile(`(?m)^package (\w+)`)
 
 func init() {
 	register("C20", func(c *engine.Ctx) {
-		c.Rule = "sets of 1..4 schema files in up to three directories (some sets: the same stem with different extensions in one directory, thing.json / thing.yaml / thing.yml, with the matching --resolve-extension flags), each with its own $id, distinct type names, acyclic cross-file references (to a file root or to a file's definition), and a package + output file mapped per id (some sharing a package, some sharing a file); the CLI binary is run in a sandbox for every argument order (all permutations up to 3 files, 8 sampled for 4) and once more with an unrelated schema added. Judged: exit 0; every output file byte-identical across argument orders; each schema's root type and each of its definitions is declared exactly once, in the file mapped to its id, under the mapped package clause (sets in which an earlier file's definition is named like a later file's root type are judged on the definitions only: K15); a cross-package reference is written pkg.Name with a matching import; all emitted packages build together (go build ./...); adding the unrelated file changes no other output. Distinct = distinct (file count, sharing pattern, reference pattern)."
+		c.Rule = "sets of 1..4 schema files in up to three directories (some sets: the same stem with different extensions in one directory, thing.json / thing.yaml / thing.yml, with the matching --resolve-extension flags), each with its own $id, distinct type names, acyclic cross-file references (to a file root or to a file's definition), and a package + output file mapped per id (some sharing a package, some sharing a file); the CLI binary is run in a sandbox for every argument order (all permutations up to 3 files, 8 sampled for 4) and once more with an unrelated schema added. Judged: exit 0; every output file byte-identical across argument orders; each schema's root type and each of its definitions is declared exactly once, in the file mapped to its id, under the mapped package clause (sets in which an earlier file's definition is named like a later file's root type are judged on the definitions only: K15); a cross-package reference is written pkg.Name with a matching import; all emitted packages build together (go build ./...); adding the unrelated file changes no other output. Plus partial mappings: a.json referring to b.json, each id with none / only a package (the default one or another) / only an output / only a root type / package and output (7 x 7 flag sets x 3 argument lists): every root type and definition is declared in exactly the file, under the package clause, that the model's assembleMapping + route give for its id, and nowhere when the id has a package without an output. Distinct = distinct (file count, sharing pattern, reference pattern)."
 		c.Proofs([]string{"GJS.Props.C20"}, []string{
 			"GJS.Props.C20.route_by_mapping", "GJS.Props.C20.route_default", "GJS.Props.C20.route_independent_of_other_mappings",
-			"GJS.Props.C20.begin_same_file_same_pkg_shares", "GJS.Props.C20.begin_same_file_other_pkg_conflicts", "GJS.Props.C20.begin_conflict_symmetric",
+			"GJS.Props.C20.begin_same_file_same_pkg_shares", "GJS.Props.C20.begin_same_file_other_pkg_conflicts", "GJS.Props.C20.begin_conflict_symmetric", "GJS.Props.C20.begin_external_never_conflicts",
 			"GJS.Props.C20.qualified_iff_other_package",
 		})
 		factsOf(c, "mapRanges", "cliOrder")
@@ -301,6 +301,7 @@ func init() {
 			}
 		}
 		c.Programs += nSets
+		partialMappings(c, bin, &fails)
 		c.FactsVerdict(fails > 0)
 		knownMultiFileFindings(c)
 	})
